@@ -1,6 +1,744 @@
-//! C34 — not implemented yet.
-use mc_core::Ctx;
+//! C34 — transaction validation enforces exactly the configured limits.
+//!
+//! Real V1 / V2 notarized transactions are assembled from a plain-data `TxSpec` (txseeds.rs), correctly signed, and
+//! pushed through `RawNotarizedTransaction::validate` (prepare with the configuration's preparation settings, then
+//! validate) under every validation configuration in use (babylon, cuttlefish = latest) plus one configuration with
+//! small limits (so that the limits that are `usize::MAX` or huge in the real ones also get a lim-1/lim/lim+1 sweep).
+//!
+//! Enumerated: for every configuration x {V1, V2}: every dimension singly at {lim-1, lim, lim+1} ({min-1, min, min+1}
+//! for minima, plus extremes) and ALL PAIRS of dimension values (thorough: also all triples under the small and cuttlefish
+//! configurations). Dimensions: network id (root / subintent), epoch window (root / subintent; empty, length max-1,
+//! max, max+1, start > end, near u64::MAX), tip (percentage / basis points), nonce / discriminator, plaintext message
+//! (mime length, content length as String and Bytes), encrypted message (payload length, number of decryptors on one
+//! curve / split over both, empty curve entries, curve filed under the wrong key), instruction count, references per
+//! intent and in total, blob count, payload size, signatures per intent, total signature validations, subintent count,
+//! children per intent, subintent depth, proposer-timestamp presence/order, notary-is-signatory.
+//! V2 overall window: for all tuples of <= 3 intents over epoch windows {[1,5),[3,8),[5,9),[8,9)} x timestamp windows
+//! {none,[10,50),[30,80),[50,90),[80,90),[30,..),(..,50)}: reported overall range == intersection, accepted <=> non-empty.
+//!
+//! Oracle: `reference()` below — written from the documented meaning of the configuration fields; accept <=> predicate.
+//! Not decided by the statement (informational): encrypted message with no decryptor entry / an empty entry; a window
+//! whose `start + max_epoch_range` does not fit in u64.
+use crate::txseeds::*;
+use mc_core::{catch, par_range, Ctx, Level, Local};
+use radix_common::prelude::*;
+use radix_transactions::errors::*;
+use radix_transactions::model::*;
+use radix_transactions::validation::*;
+use serde_json::{json, Map, Value};
+use std::sync::atomic::{AtomicU64, Ordering};
 
-pub fn run(_ctx: Ctx) -> ! {
-    mc_core::machinery_error("C34: not implemented")
+// ------------------------------------------------------------------------------------------------
+// configurations
+// ------------------------------------------------------------------------------------------------
+
+pub fn small_config() -> TransactionValidationConfig {
+    let mut c = TransactionValidationConfig::cuttlefish();
+    c.max_signer_signatures_per_intent = 2;
+    c.max_references_per_intent = 3;
+    c.min_tip_percentage = 5;
+    c.max_tip_percentage = 10;
+    c.max_epoch_range = 7;
+    c.max_instructions = 6;
+    c.message_validation = MessageValidationConfig { max_plaintext_message_length: 5, max_encrypted_message_length: 6, max_mime_type_length: 4, max_decryptors: 3 };
+    c.preparation_settings.max_user_payload_length = 4000;
+    c.preparation_settings.max_child_subintents_per_intent = 2;
+    c.preparation_settings.max_subintents_per_transaction = 5;
+    c.preparation_settings.max_blobs = 2;
+    c.min_tip_basis_points = 5;
+    c.max_tip_basis_points = 10;
+    c.max_subintent_depth = 2;
+    c.max_total_signature_validations = 4;
+    c.max_total_references = 4;
+    c
+}
+
+fn configs() -> Vec<(&'static str, TransactionValidationConfig)> {
+    assert!(TransactionValidationConfig::latest() == TransactionValidationConfig::cuttlefish());
+    vec![("babylon", TransactionValidationConfig::babylon()), ("cuttlefish", TransactionValidationConfig::cuttlefish()), ("small", small_config())]
+}
+
+// ------------------------------------------------------------------------------------------------
+// reference predicate
+// ------------------------------------------------------------------------------------------------
+
+#[derive(Debug, Clone, PartialEq, Eq)]
+enum Verdict {
+    Accept,
+    Reject(&'static str),
+    Undecided(&'static str),
+}
+
+#[derive(Debug, Clone, PartialEq, Eq)]
+struct RefRange {
+    start: u64,
+    end: u64,
+    ts_start: Option<i64>,
+    ts_end: Option<i64>,
+}
+
+fn intersection(spec: &TxSpec) -> RefRange {
+    let all: Vec<&IntentSpec> = std::iter::once(&spec.root).chain(spec.subs.iter()).collect();
+    RefRange {
+        start: all.iter().map(|i| i.start).max().unwrap(),
+        end: all.iter().map(|i| i.end).min().unwrap(),
+        ts_start: all.iter().filter_map(|i| i.min_ts).max(),
+        ts_end: all.iter().filter_map(|i| i.max_ts).min(),
+    }
+}
+
+fn reference(c: &TransactionValidationConfig, required_network: Option<u8>, spec: &TxSpec, payload_len: usize) -> Verdict {
+    let mut undecided: Option<&'static str> = None;
+    let m = &c.message_validation;
+    let p = &c.preparation_settings;
+    if spec.v2 && !(c.v2_transactions_allowed && p.v2_transactions_permitted) {
+        return Verdict::Reject("v2-not-enabled");
+    }
+    if payload_len > p.max_user_payload_length {
+        return Verdict::Reject("payload-too-large");
+    }
+    if !spec.v2 && !spec.subs.is_empty() {
+        unreachable!("V1 specs have no subintents");
+    }
+    let intents: Vec<(&IntentSpec, bool)> = std::iter::once((&spec.root, false)).chain(spec.subs.iter().map(|s| (s, true))).collect();
+    for (i, is_sub) in &intents {
+        if let Some(req) = required_network {
+            if i.network_id != req {
+                return Verdict::Reject("network-mismatch");
+            }
+        }
+        if i.end <= i.start {
+            return Verdict::Reject("empty-epoch-window");
+        }
+        if i.end - i.start > c.max_epoch_range {
+            return Verdict::Reject("epoch-window-too-long");
+        }
+        if i.start.checked_add(c.max_epoch_range).is_none() {
+            undecided = Some("start-epoch-plus-max-range-exceeds-u64");
+        }
+        if spec.v2 {
+            if let (Some(a), Some(b)) = (i.min_ts, i.max_ts) {
+                if a >= b {
+                    return Verdict::Reject("empty-timestamp-window");
+                }
+            }
+        }
+        match &i.message {
+            MsgSpec::None => {}
+            MsgSpec::Plain { mime_len, len, .. } => {
+                if *mime_len > m.max_mime_type_length {
+                    return Verdict::Reject("mime-type-too-long");
+                }
+                if *len > m.max_plaintext_message_length {
+                    return Verdict::Reject("plaintext-message-too-long");
+                }
+            }
+            MsgSpec::Enc { len, ed, secp, swap_curves } => {
+                if *len > m.max_encrypted_message_length {
+                    return Verdict::Reject("encrypted-message-too-long");
+                }
+                if ed.unwrap_or(0) + secp.unwrap_or(0) > m.max_decryptors {
+                    return Verdict::Reject("too-many-decryptors");
+                }
+                if *swap_curves && (ed.is_some() || secp.is_some()) {
+                    // model doc: "The engine should validate each DecryptorsByCurve matches the CurveType"
+                    return Verdict::Reject("decryptors-filed-under-wrong-curve");
+                }
+                if (ed.is_none() && secp.is_none()) || *ed == Some(0) || *secp == Some(0) {
+                    undecided = Some("encrypted-message-without-decryptors");
+                }
+            }
+        }
+        if i.instruction_count(*is_sub) > c.max_instructions {
+            return Verdict::Reject("too-many-instructions");
+        }
+        if i.refs > c.max_references_per_intent {
+            return Verdict::Reject("too-many-references-in-intent");
+        }
+        let blobs = i.blobs + if !*is_sub && spec.pad_payload_to.is_some() { 1 } else { 0 };
+        if blobs > p.max_blobs {
+            return Verdict::Reject("too-many-blobs");
+        }
+        if i.signers.len() > c.max_signer_signatures_per_intent {
+            return Verdict::Reject("too-many-signatures-in-intent");
+        }
+        if i.children.len() > p.max_child_subintents_per_intent {
+            return Verdict::Reject("too-many-children-in-intent");
+        }
+    }
+    if spec.v2 {
+        if spec.tip < c.min_tip_basis_points || spec.tip > c.max_tip_basis_points {
+            return Verdict::Reject("tip-basis-points-out-of-range");
+        }
+    } else if (spec.tip as u16) < c.min_tip_percentage || (spec.tip as u16) > c.max_tip_percentage {
+        return Verdict::Reject("tip-percentage-out-of-range");
+    }
+    let total_refs: usize = intents.iter().map(|(i, _)| i.refs).sum();
+    if total_refs > c.max_total_references {
+        return Verdict::Reject("too-many-references-in-total");
+    }
+    let total_validations: usize = 1 + intents.iter().map(|(i, _)| i.signers.len()).sum::<usize>();
+    if total_validations > c.max_total_signature_validations {
+        return Verdict::Reject("too-many-signature-validations");
+    }
+    if spec.subs.len() > p.max_subintents_per_transaction {
+        return Verdict::Reject("too-many-subintents");
+    }
+    for s in 0..spec.subs.len() {
+        match spec.depth_of(s) {
+            None => return Verdict::Reject("subintent-not-attached"),
+            Some(d) if d > c.max_subintent_depth => return Verdict::Reject("subintent-too-deep"),
+            _ => {}
+        }
+    }
+    if spec.v2 {
+        let r = intersection(spec);
+        if r.start >= r.end {
+            return Verdict::Reject("overall-epoch-window-empty");
+        }
+        if let (Some(a), Some(b)) = (r.ts_start, r.ts_end) {
+            if a >= b {
+                return Verdict::Reject("overall-timestamp-window-empty");
+            }
+        }
+    }
+    match undecided {
+        Some(u) => Verdict::Undecided(u),
+        None => Verdict::Accept,
+    }
+}
+
+// ------------------------------------------------------------------------------------------------
+// dimensions
+// ------------------------------------------------------------------------------------------------
+
+type Setter = Box<dyn Fn(&mut TxSpec) + Sync + Send>;
+struct Setting {
+    dim: usize,
+    label: String,
+    f: Setter,
+}
+
+fn key_for(intent_tag: usize, i: usize) -> KeyId {
+    let n = (intent_tag * 100 + i + 1) as u64;
+    if i % 3 == 2 {
+        KeyId::Ed(n)
+    } else {
+        KeyId::Secp(n)
+    }
+}
+
+/// keep existing subintent specs, make exactly n of them, detach everything, then attach via `parent(i)` (None = root)
+fn reshape(spec: &mut TxSpec, n: usize, parent: impl Fn(usize) -> Option<usize>) {
+    while spec.subs.len() < n {
+        let tag = spec.subs.len() as u32 + 1;
+        spec.subs.push(IntentSpec::base(tag));
+    }
+    spec.subs.truncate(n);
+    spec.root.children.clear();
+    for s in spec.subs.iter_mut() {
+        s.children.clear();
+    }
+    for i in 0..n {
+        match parent(i) {
+            None => spec.root.children.push(i),
+            Some(p) => spec.subs[p].children.push(i),
+        }
+    }
+}
+
+/// at least k subintents; new ones become children of the root
+fn ensure_subs(spec: &mut TxSpec, k: usize) {
+    while spec.subs.len() < k {
+        let i = spec.subs.len();
+        spec.subs.push(IntentSpec::base(i as u32 + 1));
+        spec.root.children.push(i);
+    }
+}
+
+fn around(lim: u128, type_max: u128) -> Vec<u128> {
+    let mut v = vec![];
+    for x in [lim.checked_sub(1), Some(lim), lim.checked_add(1)].into_iter().flatten() {
+        if x <= type_max && !v.contains(&x) {
+            v.push(x);
+        }
+    }
+    v
+}
+
+/// the base transaction is within every limit of `c` (tip at the configured minimum, 5-epoch windows)
+fn base_spec(v2: bool, c: &TransactionValidationConfig) -> TxSpec {
+    let mut s = TxSpec::base(v2);
+    s.tip = if v2 { c.min_tip_basis_points } else { c.min_tip_percentage as u32 };
+    if v2 {
+        ensure_subs(&mut s, 1);
+    }
+    s
+}
+
+fn settings_for(c: &TransactionValidationConfig, v2: bool, extra_values: bool) -> (Vec<&'static str>, Vec<Setting>) {
+    let mut dims: Vec<&'static str> = vec![];
+    let mut out: Vec<Setting> = vec![];
+    let c = *c;
+    macro_rules! dim {
+        ($name:expr) => {{
+            dims.push($name);
+            dims.len() - 1
+        }};
+    }
+    macro_rules! set {
+        ($d:expr, $label:expr, $f:expr) => {
+            out.push(Setting { dim: $d, label: format!("{}={}", dims[$d], $label), f: Box::new($f) })
+        };
+    }
+    let usz = |x: u128| -> usize { x as usize };
+    // which intents a per-intent dimension is applied to
+    let targets: Vec<(&'static str, Option<usize>)> = if v2 { vec![("root", None), ("sub0", Some(0))] } else { vec![("root", None)] };
+    fn on<'a>(spec: &'a mut TxSpec, t: Option<usize>) -> &'a mut IntentSpec {
+        match t {
+            None => &mut spec.root,
+            Some(i) => {
+                ensure_subs(spec, i + 1);
+                &mut spec.subs[i]
+            }
+        }
+    }
+
+    // network id
+    for (tn, t) in targets.clone() {
+        let d = dim!(if t.is_none() { "network@root" } else { "network@sub0" });
+        for n in [NETWORK - 1, NETWORK, NETWORK + 1] {
+            set!(d, format!("{n:#x}"), move |s: &mut TxSpec| on(s, t).network_id = n);
+        }
+        let _ = tn;
+    }
+    // epoch window
+    let max = c.max_epoch_range;
+    for (_, t) in targets.clone() {
+        let d = dim!(if t.is_none() { "epochs@root" } else { "epochs@sub0" });
+        let s0 = 10u64;
+        let mut wins: Vec<(u64, u64)> = vec![(s0, s0 - 1), (s0, s0), (s0, s0 + 1), (s0, s0 + max - 1), (s0, s0 + max), (s0, s0 + max + 1), (0, max), (0, max + 1)];
+        wins.push((u64::MAX - max, u64::MAX)); // longest window that still fits
+        wins.push((u64::MAX - max + 1, u64::MAX)); // shorter, but start + max overflows
+        wins.push((u64::MAX, u64::MAX));
+        wins.push((u64::MAX, 0));
+        if extra_values {
+            wins.extend([(s0, s0 + 2), (s0, s0 + max - 2), (s0, s0 + max + 2), (s0, u64::MAX), (u64::MAX - 1, u64::MAX)]);
+        }
+        for (a, b) in wins {
+            set!(d, format!("[{a},{b})"), move |s: &mut TxSpec| {
+                let i = on(s, t);
+                i.start = a;
+                i.end = b;
+            });
+        }
+    }
+    // tip
+    {
+        let d = dim!("tip");
+        let (min, max, tmax) = if v2 { (c.min_tip_basis_points as u128, c.max_tip_basis_points as u128, u32::MAX as u128) } else { (c.min_tip_percentage as u128, c.max_tip_percentage as u128, u16::MAX as u128) };
+        let mut vals = around(min, tmax);
+        for x in around(max, tmax).into_iter().chain([0, tmax]) {
+            if !vals.contains(&x) {
+                vals.push(x);
+            }
+        }
+        for x in vals {
+            set!(d, x, move |s: &mut TxSpec| s.tip = x as u32);
+        }
+    }
+    // nonce / discriminator (no limit: every value must be fine)
+    {
+        let d = dim!("discriminator");
+        for x in [0u64, 1, u32::MAX as u64, u64::MAX] {
+            set!(d, x, move |s: &mut TxSpec| s.root.discriminator = x);
+        }
+    }
+    // messages
+    let mv = c.message_validation;
+    for (_, t) in targets.clone() {
+        let d = dim!(if t.is_none() { "message@root" } else { "message@sub0" });
+        for x in around(mv.max_mime_type_length as u128, 1 << 22) {
+            set!(d, format!("plain:mime={x}"), move |s: &mut TxSpec| on(s, t).message = MsgSpec::Plain { mime_len: usz(x), bytes: false, len: 1 });
+        }
+        for x in around(mv.max_plaintext_message_length as u128, 1 << 22) {
+            for bytes in [false, true] {
+                set!(d, format!("plain:{}={x}", if bytes { "bytes" } else { "string" }), move |s: &mut TxSpec| on(s, t).message = MsgSpec::Plain { mime_len: 1, bytes, len: usz(x) });
+            }
+        }
+        for x in around(mv.max_encrypted_message_length as u128, 1 << 22) {
+            set!(d, format!("enc:len={x}"), move |s: &mut TxSpec| on(s, t).message = MsgSpec::Enc { len: usz(x), ed: Some(1), secp: None, swap_curves: false });
+        }
+        for x in around(mv.max_decryptors as u128, 1 << 16) {
+            let x = usz(x);
+            set!(d, format!("enc:ed={x}"), move |s: &mut TxSpec| on(s, t).message = MsgSpec::Enc { len: 1, ed: Some(x), secp: None, swap_curves: false });
+            set!(d, format!("enc:secp={x}"), move |s: &mut TxSpec| on(s, t).message = MsgSpec::Enc { len: 1, ed: None, secp: Some(x), swap_curves: false });
+            if x >= 2 {
+                set!(d, format!("enc:ed=1,secp={}", x - 1), move |s: &mut TxSpec| on(s, t).message = MsgSpec::Enc { len: 1, ed: Some(1), secp: Some(x - 1), swap_curves: false });
+            }
+        }
+        set!(d, "enc:swapped-curves", move |s: &mut TxSpec| on(s, t).message = MsgSpec::Enc { len: 1, ed: Some(1), secp: None, swap_curves: true });
+        set!(d, "enc:both-swapped", move |s: &mut TxSpec| on(s, t).message = MsgSpec::Enc { len: 1, ed: Some(1), secp: Some(1), swap_curves: true });
+        set!(d, "enc:no-entries", move |s: &mut TxSpec| on(s, t).message = MsgSpec::Enc { len: 1, ed: None, secp: None, swap_curves: false });
+        set!(d, "enc:ed=0", move |s: &mut TxSpec| on(s, t).message = MsgSpec::Enc { len: 1, ed: Some(0), secp: Some(1), swap_curves: false });
+    }
+    // instruction count
+    for (_, t) in targets.clone() {
+        let d = dim!(if t.is_none() { "instructions@root" } else { "instructions@sub0" });
+        let vals = if c.max_instructions == usize::MAX { vec![0u128, 1, 2000] } else { around(c.max_instructions as u128, 1 << 20) };
+        for x in vals {
+            set!(d, x, move |s: &mut TxSpec| on(s, t).target_instructions = Some(usz(x)));
+        }
+    }
+    // references per intent
+    for (_, t) in targets.clone() {
+        let d = dim!(if t.is_none() { "references@root" } else { "references@sub0" });
+        let vals = if c.max_references_per_intent == usize::MAX { vec![0u128, 600] } else { around(c.max_references_per_intent as u128, 1 << 20) };
+        for x in vals {
+            set!(d, x, move |s: &mut TxSpec| on(s, t).refs = usz(x));
+        }
+    }
+    // references in total (V2: root + sub0)
+    if v2 && c.max_total_references != usize::MAX {
+        let d = dim!("references-total");
+        let per = c.max_references_per_intent;
+        for x in around(c.max_total_references as u128, 1 << 20) {
+            let x = usz(x);
+            let r0 = (x / 2).min(per);
+            let r1 = x - r0;
+            set!(d, format!("{r0}+{r1}"), move |s: &mut TxSpec| {
+                s.root.refs = r0;
+                on(s, Some(0)).refs = r1;
+            });
+        }
+    }
+    // blobs
+    for (_, t) in targets.clone() {
+        let d = dim!(if t.is_none() { "blobs@root" } else { "blobs@sub0" });
+        for x in around(c.preparation_settings.max_blobs as u128, 1 << 16) {
+            set!(d, x, move |s: &mut TxSpec| on(s, t).blobs = usz(x));
+        }
+    }
+    // payload size
+    {
+        let d = dim!("payload-bytes");
+        for x in around(c.preparation_settings.max_user_payload_length as u128, 1 << 30) {
+            set!(d, x, move |s: &mut TxSpec| s.pad_payload_to = Some(usz(x)));
+        }
+    }
+    // signatures per intent
+    for (_, t) in targets.clone() {
+        let d = dim!(if t.is_none() { "signatures@root" } else { "signatures@sub0" });
+        let mut vals = around(c.max_signer_signatures_per_intent as u128, 1 << 10);
+        vals.push(0);
+        for x in vals {
+            let tag = t.map(|i| i + 1).unwrap_or(0);
+            set!(d, x, move |s: &mut TxSpec| on(s, t).signers = (0..usz(x)).map(|i| key_for(tag, i)).collect());
+        }
+    }
+    // signature validations in total (notary + all intents)
+    if c.max_total_signature_validations != usize::MAX {
+        let d = dim!("signature-validations-total");
+        let per = c.max_signer_signatures_per_intent;
+        for x in around(c.max_total_signature_validations as u128, 1 << 12) {
+            let x = usz(x);
+            set!(d, x, move |s: &mut TxSpec| {
+                let keys = |tag: usize, n: usize| -> Vec<KeyId> { (0..n).map(|i| key_for(tag, i)).collect() };
+                let mut left = x.saturating_sub(1); // one validation is the notary's
+                let take = if s.v2 { left.min(per) } else { left };
+                s.root.signers = keys(0, take);
+                left -= take;
+                let mut k = 0usize;
+                while left > 0 {
+                    let take = left.min(per.max(1));
+                    on(s, Some(k)).signers = keys(k + 1, take);
+                    left -= take;
+                    k += 1;
+                }
+                for j in k..s.subs.len() {
+                    s.subs[j].signers.clear();
+                }
+            });
+        }
+    }
+    if v2 {
+        let ps = c.preparation_settings;
+        // subintent count: fill intents breadth first with at most max_children each
+        if ps.max_subintents_per_transaction < 1000 {
+            let d = dim!("subintents");
+            let cap = ps.max_child_subintents_per_intent.max(1);
+            for x in around(ps.max_subintents_per_transaction as u128, 1 << 10) {
+                set!(d, x, move |s: &mut TxSpec| reshape(s, usz(x), |i| if i < cap { None } else { Some(i / cap - 1) }));
+            }
+            let d = dim!("children@root");
+            for x in around(ps.max_child_subintents_per_intent as u128, 1 << 10) {
+                set!(d, x, move |s: &mut TxSpec| reshape(s, usz(x), |_| None));
+            }
+        }
+        // depth: a chain
+        if c.max_subintent_depth < 100 {
+            let d = dim!("depth");
+            for x in around(c.max_subintent_depth as u128, 1 << 10) {
+                set!(d, x, move |s: &mut TxSpec| reshape(s, usz(x), |i| if i == 0 { None } else { Some(i - 1) }));
+            }
+        }
+        // proposer timestamps
+        for (_, t) in targets.clone() {
+            let d = dim!(if t.is_none() { "timestamps@root" } else { "timestamps@sub0" });
+            let vals: Vec<(Option<i64>, Option<i64>)> =
+                vec![(None, None), (Some(5), None), (None, Some(5)), (Some(5), Some(6)), (Some(5), Some(5)), (Some(6), Some(5)), (Some(i64::MIN), Some(i64::MAX)), (Some(i64::MAX), Some(i64::MIN))];
+            for (a, b) in vals {
+                set!(d, format!("{a:?}..{b:?}"), move |s: &mut TxSpec| {
+                    let i = on(s, t);
+                    i.min_ts = a;
+                    i.max_ts = b;
+                });
+            }
+        }
+    }
+    {
+        let d = dim!("notary-is-signatory");
+        for x in [false, true] {
+            set!(d, x, move |s: &mut TxSpec| s.notary_is_signatory = x);
+        }
+    }
+    (dims, out)
+}
+
+// ------------------------------------------------------------------------------------------------
+// running one case
+// ------------------------------------------------------------------------------------------------
+
+fn variant_name(dbg: String) -> String {
+    dbg.split(|ch: char| ch == '(' || ch == '{' || ch == ' ').next().unwrap_or("").to_string()
+}
+
+fn err_label(e: &TransactionValidationError) -> String {
+    match e {
+        TransactionValidationError::TransactionVersionNotPermitted(v) => format!("rejected:version-{v}-not-permitted"),
+        TransactionValidationError::TransactionTooLarge => "rejected:too-large".into(),
+        TransactionValidationError::EncodeError(_) => "rejected:encode-error".into(),
+        TransactionValidationError::PrepareError(p) => format!("rejected:prepare:{}", variant_name(format!("{p:?}"))),
+        TransactionValidationError::SubintentStructureError(_, s) => format!("rejected:structure:{}", variant_name(format!("{s:?}"))),
+        TransactionValidationError::IntentValidationError(_, i) => match i {
+            IntentValidationError::HeaderValidationError(h) => format!("rejected:header:{}", variant_name(format!("{h:?}"))),
+            IntentValidationError::InvalidMessage(m) => format!("rejected:message:{}", variant_name(format!("{m:?}"))),
+            IntentValidationError::ManifestValidationError(m) => format!("rejected:manifest:{}", variant_name(format!("{m:?}"))),
+            IntentValidationError::ManifestBasicValidatorError(m) => format!("rejected:manifest-basic:{}", variant_name(format!("{m:?}"))),
+            IntentValidationError::TooManyReferences { .. } => "rejected:too-many-references".into(),
+        },
+        TransactionValidationError::SignatureValidationError(_, s) => format!("rejected:signature:{}", variant_name(format!("{s:?}"))),
+    }
+}
+
+struct Counters {
+    past_prepare: AtomicU64,
+    accepted: AtomicU64,
+    cases: AtomicU64,
+}
+
+fn run_case(cfg_name: &str, c: &TransactionValidationConfig, required_network: Option<u8>, spec: &TxSpec, recipe: &Value, l: &mut Local, counters: &Counters) {
+    l.eval();
+    counters.cases.fetch_add(1, Ordering::Relaxed);
+    let Some((_built, raw)) = build(spec) else {
+        l.info("payload-padding-target-unreachable(skipped)");
+        return;
+    };
+    let validator = match required_network {
+        Some(n) => TransactionValidator::new_with_static_config(*c, n),
+        None => TransactionValidator::new_with_static_config_network_agnostic(*c),
+    };
+    let expected = reference(c, required_network, spec, raw.len());
+    let real = catch(|| raw.validate(&validator));
+    let case = || json!({"config": cfg_name, "required_network": required_network, "recipe": recipe, "spec": spec.to_json(), "payload_len": raw.len()});
+    let real = match real {
+        Ok(r) => r,
+        Err(p) => {
+            l.class("panicked");
+            l.info(&format!("panic:{}:{}:ref={:?}", cfg_name, mc_core::truncate(&p, 60), expected));
+            if expected == Verdict::Accept {
+                l.violation(format!("{cfg_name}:panic-on-acceptable"), format!("reference accepts; validation panicked: {p}"), case());
+            }
+            return;
+        }
+    };
+    if !matches!(&real, Err(TransactionValidationError::PrepareError(_))) {
+        counters.past_prepare.fetch_add(1, Ordering::Relaxed);
+    }
+    match (&expected, &real) {
+        (Verdict::Accept, Ok(v)) => {
+            counters.accepted.fetch_add(1, Ordering::Relaxed);
+            l.class("accepted");
+            if let ValidatedUserTransaction::V2(v2) = v {
+                let r = intersection(spec);
+                let got = &v2.overall_validity_range;
+                let same = got.epoch_range.start_epoch_inclusive.number() == r.start
+                    && got.epoch_range.end_epoch_exclusive.number() == r.end
+                    && got.proposer_timestamp_range.start_timestamp_inclusive.map(|t| t.seconds_since_unix_epoch) == r.ts_start
+                    && got.proposer_timestamp_range.end_timestamp_exclusive.map(|t| t.seconds_since_unix_epoch) == r.ts_end;
+                if !same {
+                    l.violation(format!("{cfg_name}:overall-range-is-not-the-intersection"), format!("reference intersection {r:?}, reported {got:?}"), case());
+                }
+            }
+            l.sample(|| json!({"accepted": case()}));
+        }
+        (Verdict::Reject(_), Err(e)) => l.class(&err_label(e)),
+        (Verdict::Undecided(u), Ok(_)) => l.info(&format!("undecided:{u}:accepted")),
+        (Verdict::Undecided(u), Err(e)) => l.info(&format!("undecided:{u}:{}", err_label(e))),
+        (Verdict::Accept, Err(e)) => l.violation(format!("{cfg_name}:rejects-within-limits:{}", err_label(e)), format!("reference: within every configured limit; real: {e:?}"), case()),
+        (Verdict::Reject(why), Ok(_)) => l.violation(format!("{cfg_name}:accepts-beyond-limit:{why}"), format!("reference: must be rejected ({why}); real: accepted"), case()),
+    }
+}
+
+fn apply(base: &TxSpec, settings: &[&Setting]) -> (TxSpec, Value) {
+    let mut s = base.clone();
+    for st in settings {
+        (st.f)(&mut s);
+    }
+    (s, json!(settings.iter().map(|x| x.label.clone()).collect::<Vec<_>>()))
+}
+
+// ------------------------------------------------------------------------------------------------
+
+const EPOCH_WINDOWS: [(u64, u64); 4] = [(1, 5), (3, 8), (5, 9), (8, 9)];
+const TS_WINDOWS: [(Option<i64>, Option<i64>); 7] = [(None, None), (Some(10), Some(50)), (Some(30), Some(80)), (Some(50), Some(90)), (Some(80), Some(90)), (Some(30), None), (None, Some(50))];
+
+fn window_spec(idx: &[usize]) -> TxSpec {
+    // idx[k] = epoch window index * 7 + timestamp window index, intent k (0 = root)
+    let mut s = TxSpec::base(true);
+    reshape(&mut s, idx.len() - 1, |i| if i == 0 { None } else { Some(0) }); // root -> sub0 -> {sub1}
+    for (k, x) in idx.iter().enumerate() {
+        let i = if k == 0 { &mut s.root } else { &mut s.subs[k - 1] };
+        let (a, b) = EPOCH_WINDOWS[x / 7];
+        i.start = a;
+        i.end = b;
+        let (ta, tb) = TS_WINDOWS[x % 7];
+        i.min_ts = ta;
+        i.max_ts = tb;
+    }
+    s
+}
+
+pub fn run(ctx: Ctx) -> ! {
+    assert_signing_is_deterministic();
+    let cfgs = configs();
+    let counters = Counters { past_prepare: AtomicU64::new(0), accepted: AtomicU64::new(0), cases: AtomicU64::new(0) };
+
+    if let Some(case) = ctx.read_replay_case() {
+        let cfg_name = case.get("config").and_then(|x| x.as_str()).unwrap_or("");
+        let Some((_, c)) = cfgs.iter().find(|(n, _)| *n == cfg_name) else { mc_core::machinery_error("C34 replay: unknown config") };
+        let v2 = case.pointer("/spec/version").and_then(|x| x.as_u64()) == Some(2);
+        let required = case.get("required_network").and_then(|x| x.as_u64()).map(|x| x as u8);
+        let mut l = Local::new();
+        let spec = if let Some(w) = case.pointer("/recipe/windows").and_then(|x| x.as_array()) {
+            window_spec(&w.iter().map(|x| x.as_u64().unwrap() as usize).collect::<Vec<_>>())
+        } else {
+            let labels: Vec<String> = case.get("recipe").and_then(|x| x.as_array()).map(|a| a.iter().filter_map(|x| x.as_str().map(String::from)).collect()).unwrap_or_default();
+            let (_, settings) = settings_for(c, v2, true);
+            let chosen: Vec<&Setting> = labels.iter().map(|lb| settings.iter().find(|s| &s.label == lb).unwrap_or_else(|| mc_core::machinery_error("C34 replay: unknown setting label"))).collect();
+            apply(&base_spec(v2, c), &chosen).0
+        };
+        let raw = build(&spec).map(|x| x.1);
+        if let Some(raw) = &raw {
+            println!("reference: {:?}", reference(c, required, &spec, raw.len()));
+            let validator = match required {
+                Some(n) => TransactionValidator::new_with_static_config(*c, n),
+                None => TransactionValidator::new_with_static_config_network_agnostic(*c),
+            };
+            println!("real:      {:?}", catch(|| raw.validate(&validator).map(|_| "accepted")));
+        }
+        run_case(cfg_name, c, required, &spec, case.get("recipe").unwrap_or(&Value::Null), &mut l, &counters);
+        ctx.merge(l);
+        ctx.finish(Level::Exploration, "replay", 1, false, Map::new(), &[]);
+    }
+
+    let mut cov = Map::new();
+    let mut plan = vec![];
+    for (cfg_name, c) in &cfgs {
+        for v2 in [false, true] {
+            let (dims, settings) = settings_for(c, v2, !ctx.quick());
+            let base = base_spec(v2, c);
+            // singles + pairs (different dimensions); thorough: triples under the small configuration
+            let mut combos: Vec<Vec<usize>> = vec![vec![]];
+            // V2 is not enabled under babylon: every case is the same rejection, singles are enough
+            let pairs = !(v2 && !c.preparation_settings.v2_transactions_permitted);
+            for i in 0..settings.len() {
+                combos.push(vec![i]);
+                for j in i + 1..settings.len() {
+                    if pairs && settings[i].dim != settings[j].dim {
+                        combos.push(vec![i, j]);
+                    }
+                }
+            }
+            if !ctx.quick() && (*cfg_name == "small" || *cfg_name == "cuttlefish") {
+                for i in 0..settings.len() {
+                    for j in i + 1..settings.len() {
+                        for k in j + 1..settings.len() {
+                            if settings[i].dim != settings[j].dim && settings[j].dim != settings[k].dim && settings[i].dim != settings[k].dim {
+                                combos.push(vec![i, j, k]);
+                            }
+                        }
+                    }
+                }
+            }
+            plan.push(format!("{cfg_name}/V{}: {} dimensions, {} values, {} combinations", if v2 { 2 } else { 1 }, dims.len(), settings.len(), combos.len()));
+            par_range(&ctx, combos.len() as u64, 4, |ci, l| {
+                let chosen: Vec<&Setting> = combos[ci as usize].iter().map(|i| &settings[*i]).collect();
+                let (spec, recipe) = apply(&base, &chosen);
+                run_case(cfg_name, c, Some(NETWORK), &spec, &recipe, l, &counters);
+                // the network dimension also against a network-agnostic validator
+                if chosen.iter().any(|s| s.label.starts_with("network@")) {
+                    run_case(cfg_name, c, None, &spec, &recipe, l, &counters);
+                }
+            });
+        }
+    }
+    // one explicit "V2 switched off at validation level" configuration
+    {
+        let mut l = Local::new();
+        let mut c = TransactionValidationConfig::cuttlefish();
+        c.v2_transactions_allowed = false;
+        for v2 in [false, true] {
+            run_case("cuttlefish-v2-disallowed", &c, Some(NETWORK), &base_spec(v2, &c), &json!([]), &mut l, &counters);
+        }
+        ctx.merge(l);
+    }
+
+    // ---- V2 overall window = intersection ----------------------------------------------------------
+    let c = TransactionValidationConfig::cuttlefish();
+    let mut window_cases = 0u64;
+    for k in 1..=3usize {
+        let total = 28u64.pow(k as u32);
+        window_cases += total;
+        par_range(&ctx, total, 16, |idx, l| {
+            let mut rem = idx as usize;
+            let mut v = vec![];
+            for _ in 0..k {
+                v.push(rem % 28);
+                rem /= 28;
+            }
+            let spec = window_spec(&v);
+            run_case("cuttlefish", &c, Some(NETWORK), &spec, &json!({"windows": v}), l, &counters);
+        });
+    }
+
+    cov.insert("plan".into(), json!(plan));
+    cov.insert("window_tuples".into(), json!(window_cases));
+    cov.insert("cases".into(), json!(counters.cases.load(Ordering::Relaxed)));
+    cov.insert("cases_past_preparation".into(), json!(counters.past_prepare.load(Ordering::Relaxed)));
+    cov.insert("cases_accepted".into(), json!(counters.accepted.load(Ordering::Relaxed)));
+    cov.insert("configurations".into(), json!(["babylon", "cuttlefish (= latest)", "small (cuttlefish with small limits)", "cuttlefish with v2_transactions_allowed=false (base specs only)"]));
+    ctx.finish(
+        Level::Exploration,
+        "a case is one (configuration, required network, transaction spec) where the spec is the base transaction with 0, 1 or 2 (thorough/small: 3) dimension values applied, or one tuple of per-intent epoch/timestamp windows; every case is a correctly signed real transaction validated from raw bytes; non-trivial = cases that got past preparation (first rejection stage)",
+        counters.past_prepare.load(Ordering::Relaxed),
+        true,
+        cov,
+        &[
+            "the 'small' configuration is not one in use; it exists so that limits which are usize::MAX/huge in babylon/cuttlefish are also swept at lim-1/lim/lim+1",
+            "all signatures are valid and signers distinct from each other and from the notary (signature validity is C33)",
+            "filler instructions are DROP_AUTH_ZONE_PROOFS, references are CALL_METHODs on distinct static component addresses, blobs are distinct and unreferenced",
+            "duplicate decryptor fingerprints cannot be expressed in the typed model and are not covered",
+        ],
+    )
 }
